@@ -58,13 +58,14 @@ def replay(ctx, recs, stats):
     """Build every exported tree with the real classes and compare all observables."""
     groups = collections.OrderedDict()
     for r in recs:
-        groups.setdefault(core.canon(r["els"]), []).append(r)
+        groups.setdefault(core.canon([r["els"], r.get("peek", 0)]), []).append(r)
     for alts in groups.values():
         els = alts[0]["els"]
+        peek = alts[0].get("peek", 0)
         variants = (False, True) if has_tuple_variant(els) else (False,)
         for tuples in variants:
             try:
-                objs = sl.build(els, tuples)
+                objs = sl.build(els, tuples, peek)
             except Exception as exc:   # noqa
                 ctx.violation("construct:raised:%s" % exc_name(exc),
                               {"tree": sl.sig(els), "tuples": tuples, "exception": repr(exc)})
@@ -77,7 +78,7 @@ def replay(ctx, recs, stats):
                 ctx.violation("%s:changed-by-run:in-%s" % (els[i - 1]["k"], pk),
                               {"tree": sl.sig(els), "element": i, "before_run": before, "after_run": after})
             results = [sl.compare(els, a, obs, rt) for a in alts]
-            ctx.case(["tree", els, tuples], nontrivial=len(els) > 1)
+            ctx.case(["tree", els, tuples, peek], nontrivial=len(els) > 1)
             stats["observations"] += sum(1 for o in obs if o and not o.get("skip")) + 1
             good = [j for j, (bad, _) in enumerate(results) if not bad]
             if good:
@@ -90,6 +91,7 @@ def replay(ctx, recs, stats):
             for (k, what, pk, i, want, got) in results[0][0]:
                 ctx.violation("%s:%s:in-%s" % (k, what, pk),
                               {"tree": sl.sig(els), "element": i, "branches_as_tuples": tuples,
+                               "context_requested_after_building_node": peek,
                                "expected": want, "observed": got,
                                "policy": alts[0]["pol"]})
     return len(groups)
@@ -259,6 +261,42 @@ def pattern_trees():
                         sp = add("split", [b1, b2])
                         add(outer, [first, sp])
                         out.append(els)
+    # a Split inside a nested sequence under a non-empty outer prefix, with a consumer after it
+    # (the Split's context is requested by the inner constructor before the outer context arrives)
+    for outer in ("seq", "src"):
+        for bkind in ("seq", "src"):
+            for cons in consumers:
+                els = []
+
+                def add(k, ch=(), p=(), v=NOTPL):
+                    els.append({"k": k, "p": list(p), "v": v, "ch": list(ch)})
+                    return len(els)
+                first = add("set", p=["ka"], v={"t": "int", "toks": [_lit("1")]})
+                b = add(bkind, [])
+                sp = add("split", [b])
+                ch = [sp] + ([add(cons[0], v=cons[1])] if cons else [])
+                inner = add("seq", ch)
+                add(outer, [first, inner])
+                out.append(els)
+    # a Source whose first element (a Source, or a Split of Sources) exports static context
+    for gen in ("src", "split"):
+        for lead in (False, True):
+            for cons in consumers:
+                els = []
+
+                def add(k, ch=(), p=(), v=NOTPL):
+                    els.append({"k": k, "p": list(p), "v": v, "ch": list(ch)})
+                    return len(els)
+                ch = [add("set", p=["kb"], v={"t": "int", "toks": [_lit("2")]})] if lead else []
+                a = add("set", p=["ka"], v={"t": "int", "toks": [_lit("1")]})
+                g = add("src", [a])
+                if gen == "split":
+                    g = add("split", [g])
+                ch.append(g)
+                if cons:
+                    ch.append(add(cons[0], v=cons[1]))
+                add("srcf", ch)
+                out.append(els)
     return out
 
 
@@ -272,8 +310,13 @@ def c2s(ctx, n, max_tok, stats):
         else:
             els = split_tree(rnd) if j % 3 == 2 else random_tree(rnd, max_tok)
         tuples = bool(rnd.getrandbits(1))
+        # _get_context() of one node is requested right after it is built (must change nothing)
+        nodes = [i for i, e in enumerate(els, 1) if e["k"] in sl.NODE_KINDS]
+        peek = rnd.choice(nodes) if nodes and rnd.random() < 0.5 else 0
+        if j >= n:
+            peek = nodes[(j - n) % len(nodes)]
         try:
-            objs = sl.build(els, tuples)
+            objs = sl.build(els, tuples, peek)
         except Exception as exc:   # noqa
             ctx.violation("construct:raised:%s" % exc_name(exc),
                           {"tree": sl.sig(els), "tuples": tuples, "exception": repr(exc)})
@@ -348,6 +391,14 @@ def demo_defect_models(ctx):
             "%s: TLC violates SeenIsExpected after %d states" % (what, res.distinct))
 
 
+def demo_switch(ctx, cfg, what):
+    res = ctx.mc("StaticContext", cfg, expect_violation="report")
+    if res.exit == 0 or res.violated not in ("SeenIsExpected", "PeekIsPure"):
+        raise core.MachineryError("defect model %s does not violate SeenIsExpected" % cfg)
+    ctx.extra.setdefault("design_level_counterexamples", []).append(
+        "%s: TLC violates %s after %d states" % (what, res.violated, res.distinct))
+
+
 def demo_abort(ctx):
     """SplitContinues = FALSE (LenaSplit._set_context is left when a branch raises): the sibling
     branches after it miss the outer context - SeenIsExpected is violated at depth 4."""
@@ -402,21 +453,20 @@ def _run(ctx):
     ctx.assume("a Split branch that is a bare fill/compute element: three readings accepted (ignored and "
                "{} if no other branch; ignored and transparent; counts with the copy it was handed)")
     stats = {"observations": 0, "policy_trees": 0, "policies_matched": collections.Counter(),
-             "other_key_named": 0, "c2s_rejected": 0, "c2s_unvalidated": 0, "trees_by_family": collections.Counter()}
+             "other_key_named": 0, "c2s_rejected": 0, "c2s_unvalidated": 0, "trees_by_family": collections.Counter(),
+             "peeked": 0}
+    kinds_seen = set()
     # ---- design level (background thread): vacuity guard with -coverage on the 3-token family
     # (coverage slows TLC several times), all families of the tier without it, defect models
-    def covered():
-        res = ctx.mc("StaticContext", "StaticContext_cov.cfg", coverage=True, workers=2)
-        for names in (("Open", "OpenAny"), ("Place", "PlaceAny"), ("Close",), ("UseRoot",)):
-            if not any(res.coverage.get(n, 0) for n in names):
-                raise core.MachineryError("vacuous model: action %s never taken" % names[0])
-
-    jobs = [covered,
+    jobs = [
             lambda: ctx.mc("StaticContext", "StaticContext_%s.cfg" % tag),
             lambda: demo_defect_models(ctx)]
     if ctx.thorough:
         jobs.append(lambda: ctx.mc("StaticContext", "StaticContext_sim.cfg", simulate=2000, depth=24))
         jobs.append(lambda: demo_abort(ctx))
+        jobs.append(lambda: demo_switch(ctx, "StaticContext_cache.cfg", "SplitCachesExport=TRUE"))
+        jobs.append(lambda: demo_switch(ctx, "StaticContext_noskip.cfg", "SkipEmpty=FALSE"))
+        jobs.append(lambda: demo_switch(ctx, "StaticContext_norepass.cfg", "SrcFRepass=FALSE"))
     bg = Background(jobs)
     # ---- spec -> code (main thread)
     cwd = os.getcwd()
@@ -430,6 +480,9 @@ def _run(ctx):
             recs = ctx.export("StaticContext", cfg, min_records=1000)
             for r in recs:
                 stats["trees_by_family"][r["fam"]] += 1
+                stats["peeked"] += int(r.get("peek", 0) != 0)
+                for e in r["els"]:
+                    kinds_seen.add(e["k"])
             replay(ctx, recs, stats)
             ctx.sample({"spec_behaviour": _brief(recs[len(recs) * 2 // 3])}, limit=3)
             del recs
@@ -440,6 +493,14 @@ def _run(ctx):
     if accepted:
         ctx.binding_demo("Trace_StaticContext", "Trace_StaticContext.cfg", accepted, corrupt, limit=60)
     bg.join()
+    # vacuity guard (instead of TLC -coverage, which runs out of memory on this specification):
+    # every finished behaviour used Open, Place/Close and UseRoot; every family of the tier, every
+    # kind of object and the "context requested before placement" step must occur
+    want = set(["set", "store", "ucfs", "mf", "mfd", "mfe", "write", "cache", "data", "acc",
+                "seq", "src", "srcf", "split"])
+    if want - kinds_seen or not stats["peeked"] or len(stats["trees_by_family"]) < (10 if ctx.thorough else 9):
+        raise core.MachineryError("vacuous model: kinds missing %s, peeked %d, families %s" % (
+            sorted(want - kinds_seen), stats["peeked"], sorted(stats["trees_by_family"])))
     stats["policies_matched"] = dict(stats["policies_matched"])
     stats["trees_by_family"] = dict(stats["trees_by_family"])
     ctx.extra["c13"] = stats
